@@ -26,6 +26,7 @@ import ctypes
 import fcntl
 import hashlib
 import os
+import re
 import shutil
 import subprocess
 import tempfile
@@ -33,13 +34,33 @@ import tempfile
 import numpy as np
 
 GUARD = 0.0
-FFLAGS = ['-O2', '-shared', '-fPIC']          # f2py's Meson backend builds with an optimised buildtype; no -ffast-math, no -march
+# f2py's Meson backend builds with an optimised buildtype; no -ffast-math, no -march.  -ffp-contract=off: a*b+c stays two roundings also
+# where the baseline ISA has a fused multiply-add (aarch64, ppc64; no effect on x86-64), as in the Python engine
+FFLAGS = ['-O2', '-ffp-contract=off', '-shared', '-fPIC']
 _c_int_p = ctypes.POINTER(ctypes.c_int)
 _c_double_p = ctypes.POINTER(ctypes.c_double)
 
 
 class CompileError(Exception):
     """gfortran rejected the generated program (message = compiler output)."""
+
+
+class ToolError(RuntimeError):
+    """The tool chain failed for a reason that says nothing about the program: gfortran killed by a signal / out of memory / no space
+    left / timed out, or the shared object cannot be loaded (directory mounted noexec).  NOT a CompileError: callers let it
+    propagate so that the run ends as a harness error instead of a verdict about fsic.  Never cached."""
+
+
+_INFRA = re.compile(r'Killed|out of memory|Cannot allocate memory|virtual memory exhausted|No space left|Disk quota|'
+                    r'internal compiler error|Input/output error|Read-only file system|Permission denied|Segmentation fault|'
+                    r'Too many open files|Cannot open|cannot open|Can\'t open|can\'t open', re.I)
+
+
+def _diagnosed(returncode, output):
+    """A non-zero gfortran exit is a verdict on the source only if the compiler itself says so: exit by return (not by signal), an
+    `Error:` diagnostic with a source location, and no sign of resource trouble in its output."""
+    return returncode > 0 and re.search(r'^\S*model\.f95:\d+[:.]\d+', output, re.M) is not None and 'Error' in output \
+        and _INFRA.search(output) is None
 
 
 class Cache:
@@ -49,7 +70,7 @@ class Cache:
         self.path = path
         self._loaded = {}
 
-    def compile(self, text, timeout=120):
+    def compile(self, text, timeout=45):
         """-> path of the .so for `text` (compiling it once); raises CompileError with the compiler's output."""
         os.makedirs(self.path, exist_ok=True)
         key = hashlib.sha256((' '.join(FFLAGS) + '\0' + text).encode()).hexdigest()[:24]
@@ -70,8 +91,18 @@ class Cache:
                 src = os.path.join(work, 'model.f95')
                 with open(src, 'w') as f:
                     f.write(text)
-                p = subprocess.run(['gfortran'] + FFLAGS + ['-J', work, src, '-o', os.path.join(work, 'model.so')],
-                                   capture_output=True, text=True, timeout=timeout, cwd=work)
+                try:
+                    p = subprocess.run(['gfortran'] + FFLAGS + ['-J', work, src, '-o', os.path.join(work, 'model.so')],
+                                       capture_output=True, text=True, timeout=timeout, cwd=work)
+                except subprocess.TimeoutExpired:
+                    raise ToolError('gfortran did not finish within %d s (machine overloaded?)' % timeout)
+                except OSError as e:
+                    raise ToolError('gfortran could not be run: %s' % e)
+                out_ = (p.stderr or '') + (p.stdout or '')
+                if p.returncode != 0 and not _diagnosed(p.returncode, out_):
+                    raise ToolError('gfortran failed without diagnosing the source (exit status %d): %s' % (p.returncode, out_[-600:]))
+                if p.returncode == 0 and not os.path.exists(os.path.join(work, 'model.so')):
+                    raise ToolError('gfortran exited 0 without writing the shared object: %s' % out_[-600:])
                 if p.returncode != 0:
                     with open(err + '.tmp', 'w') as f:
                         f.write((p.stderr or p.stdout)[-4000:])
@@ -103,7 +134,11 @@ class Engine:
     """The object to assign to `FortranEngine.ENGINE`."""
 
     def __init__(self, so_path):
-        self._lib = ctypes.CDLL(so_path)
+        try:
+            self._lib = ctypes.CDLL(so_path)
+        except OSError as e:
+            raise ToolError('cannot load the compiled module %s: %s (is %s mounted noexec? set VERIF_SO_DIR to a directory on a '
+                            'file system that allows execution)' % (so_path, e, os.path.dirname(so_path)))
         for name in ('evaluate_', 'solve_t_', 'solve_'):
             getattr(self._lib, name).restype = None
 
